@@ -8,6 +8,7 @@ import (
 	"os"
 	"path"
 	"path/filepath"
+	"sort"
 	"strings"
 
 	"github.com/tonistiigi/fsutil"
@@ -24,7 +25,7 @@ func init() {
 	core.Register(&core.Prop{
 		ID:    "C11",
 		Level: "exploration",
-		Rule: "on-disk trees over a sibling-confusable name universe with hard-link groups (files and special files) spread over directories x filter configurations {include, exclude, include+exclude, follow-paths, nested stacks of 2-3 filters}; the real Send over the filtered view is received by the real Receive into an empty directory; the STAT stream is fed to an independent validator (order, parents, link targets inside the stream), dest is compared with the reference-filtered source with re-canonicalised link groups, and every regular file of the full tree is opened through the view (listed => bytes, hidden => error). " +
+		Rule: "Plus (1 case of 40) a filtered view of /proc/sys/kernel (lstat size 0, content not empty) and, in a quarter of the cases, a first attempt over a stream that breaks during the listing before the judged transfer. on-disk trees over a sibling-confusable name universe with hard-link groups (files and special files) spread over directories x filter configurations {include, exclude, include+exclude, follow-paths, nested stacks of 2-3 filters}; the real Send over the filtered view is received by the real Receive into an empty directory; the STAT stream is fed to an independent validator (order, parents, link targets inside the stream), dest is compared with the reference-filtered source with re-canonicalised link groups, and every regular file of the full tree is opened through the view (listed => bytes, hidden => error). " +
 			"non-trivial = the view is a proper non-empty subset and contains a link group or hides a member of one; distinct by (tree, filter stack) fingerprint",
 		Assumptions: []string{"root", "reference filter as in C10; follow-paths are resolved by fsutil.FollowLinks itself (its correctness is C18's subject)", "K1 triage as in C10"},
 		Cases: func(tier string) int {
@@ -88,12 +89,88 @@ func refLevel(items []refs.Item, lv filtLevel, inc []string, incremental bool, d
 	return out, nil
 }
 
+// c11Procfs: a filtered view of a file system whose lstat says size 0 for
+// files that have content (procfs): every file the view reports yields its
+// bytes through the view, and the transfer stores exactly those.
+func c11Procfs(c *core.Ctx, r *core.Result) *core.Result {
+	const root = "/proc/sys/kernel"
+	names := []string{"ostype", "osrelease", "pid_max", "hostname"}
+	want := map[string][]byte{}
+	for _, n := range names {
+		fi, err := os.Lstat(filepath.Join(root, n))
+		b, err2 := os.ReadFile(filepath.Join(root, n))
+		if err != nil || err2 != nil || !fi.Mode().IsRegular() || len(b) == 0 {
+			continue
+		}
+		want[n] = b
+	}
+	if len(want) < 2 {
+		r.Inconclusive = "no readable procfs files"
+		return r
+	}
+	var inc []string
+	for n := range want {
+		inc = append(inc, n)
+	}
+	sort.Strings(inc)
+	base, err := fsutil.NewFS(root)
+	if err != nil {
+		r.Inconclusive = err.Error()
+		return r
+	}
+	view, err := fsutil.NewFilterFS(base, &fsutil.FilterOpt{IncludePatterns: inc})
+	if err != nil {
+		r.Inconclusive = err.Error()
+		return r
+	}
+	r.FP = "procfs"
+	r.Sample = map[string]any{"view": root, "include": inc}
+	for _, n := range inc {
+		rc, err := view.Open(n)
+		if err != nil {
+			r.Violate("open-reported-fails", "procfs view: Open(%q) fails: %v", n, err)
+			continue
+		}
+		b, _ := io.ReadAll(rc)
+		rc.Close()
+		if string(b) != string(want[n]) {
+			r.Violate("open-bytes", "procfs view: Open(%q) yields %q, the file holds %q", n, b, want[n])
+		}
+	}
+	dest := filepath.Join(c.Dir, "dest")
+	os.Mkdir(dest, 0755)
+	res := runSync(syncOpt{Cfg: wire.Config{Cap: 8}, Src: view, Dest: dest})
+	if checkHang(r, res, "procfs view") {
+		return r
+	}
+	if res.SendErr != nil || res.RecvErr != nil {
+		r.Violate("filtered-transfer-failed", "transfer of a filtered procfs view failed: send=%v recv=%v", res.SendErr, res.RecvErr)
+		return r
+	}
+	for _, n := range inc {
+		b, err := os.ReadFile(filepath.Join(dest, n))
+		if err != nil || string(b) != string(want[n]) {
+			r.Violate("dest-diverged", "filtered view of %s (files whose lstat size is 0): %q arrived as %q (%v), the view yields %q", root, n, b, err, want[n])
+		}
+	}
+	ents, _ := os.ReadDir(dest)
+	if len(ents) != len(inc) {
+		r.Violate("dest-diverged", "filtered view of %s: %d entries arrived, the view has %d", root, len(ents), len(inc))
+	}
+	r.Count("views_of_a_file_system_reporting_size_0_for_files_with_content", 1)
+	r.Nontrivial = true
+	return r
+}
+
 func c11Run(c *core.Ctx) *core.Result {
 	r := &core.Result{}
 	if !needRoot(r) {
 		return r
 	}
 	R := c.R
+	if c.Index%40 == 17 {
+		return c11Procfs(c, r)
+	}
 	o := tree.GenOpt{MaxEntries: 22, MaxDepth: 3, MaxFanout: 5, Names: refs.FilterNames, Types: "fdlpc", Owners: []uint32{0, 1234}, MaxSize: 40000, Links: true, SpecLinks: true, Xattrs: true}
 	t := tree.Gen(R, o)
 	src := filepath.Join(c.Dir, "src")
